@@ -390,3 +390,5 @@ def check(ctx):
     from . import c05
     ctx.run('C02.R9', 'every completion the kernel published is handed to Completion::process exactly once, also when the queue is exactly full (=C05.R3)', c05.r3_once_per_slot)
     ctx.run('C02.R10', 'the head published to the kernel is the position behind the last processed completion (=C05.R2)', c05.r2_publish_last)
+    from . import c18
+    ctx.run('C02.R11', 'the lengths that give the index masks are the sizes the kernel granted: Completions.entries_len = params.cq_entries (=C18.R4)', lambda r, facts: c18.ring_lengths(r, facts, modes=False, sq=False, floor=1))
